@@ -19,9 +19,20 @@ def tdim(gran, col="c1"):
     return ("tdim", gran, CI[col])
 
 
+def tdim2(gran, col="c1"):
+    """the second time-dimension flavour: 2-day steps from Monday 2024-01-29, so that column values 0..2 fall into ONE ISO week but TWO months.
+    All tdim2 references of a model over the same column are ONE dimension requested at several granularities (shared name)."""
+    return ("tdim2", gran, CI[col])
+
+
+def dim_name(i, e):
+    """name of the Dimension object behind dimension number i of a query"""
+    return "w%d" % e[2] if e[0] == "tdim2" else "d%d" % i
+
+
 def dim_col(i, e):
     """name of the result column of dimension number i"""
-    return "d%d__%s" % (i, e[1]) if e[0] == "tdim" else "d%d" % i
+    return "%s__%s" % (dim_name(i, e), e[1]) if e[0] in ("tdim", "tdim2") else "d%d" % i
 
 
 def canon_times(rows):
@@ -174,8 +185,14 @@ def real_layer(f, metrics_by_model, dims_by_model, extra_model_kw=None):
             L.conn.executemany("insert into %s values (?,?,?,?,?,?,?)" % m["name"], m["rows"])
     for m in f["models"]:
         rels = [Relationship(**r) for r in m["rels"]]
+        seen_names, uniq = set(), []
+        for dn, e in dims_by_model.get(m["name"], []):
+            if dn not in seen_names:          # one Dimension per name: a tdim2 dimension requested at several granularities is declared once
+                seen_names.add(dn)
+                uniq.append((dn, e))
         dims = [(Dimension(name=dn, type="time", granularity="day", sql="(TIMESTAMP '2024-01-15 00:00:00' + %s * INTERVAL 20 DAY)" % JCOLS[e[2]]) if e[0] == "tdim" else
-                 Dimension(name=dn, type=("categorical" if e == jcol("s0") else "numeric"), sql=jsql(e))) for dn, e in dims_by_model.get(m["name"], [])]
+                 Dimension(name=dn, type="time", granularity="day", sql="(TIMESTAMP '2024-01-29 00:00:00' + %s * INTERVAL 2 DAY)" % JCOLS[e[2]]) if e[0] == "tdim2" else
+                 Dimension(name=dn, type=("categorical" if e == jcol("s0") else "numeric"), sql=jsql(e))) for dn, e in uniq]
         mets = [Metric(name=mn, agg=a, sql=(jsql(e) if e else None), filters=[jsql(x, "{model}.") for x in fl] or None) for mn, a, e, fl in metrics_by_model.get(m["name"], [])]
         kw = dict((extra_model_kw or {}).get(m["name"], {}))
         L.add_model(Model(name=m["name"], table=m["name"], primary_key=model_pk(m), relationships=rels, dimensions=dims, metrics=mets, **kw))
